@@ -11,7 +11,8 @@ import itertools
 
 from ..program import AnalysisError, walk_local, dotted
 from ..analysis import Spec, src, const_value
-from ..rules import (canon, cond_equiv, GWF, EXC, need_func, stores_to, is_const, raise_class,
+from ..rules import (canon, cond_equiv, flow_canon, chained_assign_value, substitute_locals,
+                     iteration_outcomes, kind_env, GWF, EXC, need_func, stores_to, is_const, raise_class,
                      eval_atom, eval_cond, UNKNOWN, parent_map)
 from . import common
 from .c12 import _first_exit
@@ -62,6 +63,8 @@ def accumulators_monotone(prog, an, rep):
             rep.evaluated()
             tgt = src(st.targets[0])
             v = st.value
+            if isinstance(v, ast.Name):     # the max kept in a local first
+                v = chained_assign_value(f, v.id) or v
             ok = isinstance(v, ast.Call) and src(v.func) == 'max'
             keeps = False
             if ok:
@@ -284,50 +287,82 @@ def hotfix_admission(prog, an, rep):
                       path=c.describe_path(path))
 
 
+def _cascade_loop(f):
+    """(the loop over self._cascade.items(), name of the per-line mapping)
+    of a BranchCascade method: `for (major, minor), <holder> in ...`."""
+    for n in walk_local(f.node, include_root=False):
+        if isinstance(n, ast.For) and isinstance(n.target, ast.Tuple) and \
+                len(n.target.elts) == 2 and \
+                isinstance(n.target.elts[1], ast.Name) and \
+                'self._cascade.items()' in src(n.iter):
+            return n, n.target.elts[1].id
+    raise AnalysisError('anchor-missing loop over self._cascade.items() in '
+                        + f.qname)
+
+
 def rejection_guards(prog, an, rep):
     R = 'C09.REG.rejections'
     v = need_func(an, BR + '.BranchCascade.validate')
     c = an.cfg(v)
-    checks = [
-        ('dev_branch is None', True, 'DevBranchDoesNotExist',
-         'a stabilization branch without its development branch'),
-        ('dev_branch.micro + 1 != stb_branch.micro', True, 'VersionMismatch',
-         'a stabilization micro that is not the next patch'),
-    ]
-    for text, val, exc, label in checks:
-        bs = an.branch_nodes(v, lambda e, t=text: src(e) == t, val)
+    loop, holder = _cascade_loop(v)
+    K = ('DevelopmentBranch', 'StabilizationBranch', 'HotfixBranch')
+    for dev, stb, hf in itertools.product((True, False), repeat=3):
+        env = kind_env(holder, dict(zip(K, (dev, stb, hf))))
+        got = iteration_outcomes(an, v, loop, env)
         rep.evaluated()
-        okk = False
-        for b in bs:
-            first = _first_exit(an, v, c, b)
-            okk = okk or (first is not None and first[0] == 'raise' and
-                          (first[1] or '').endswith('.' + exc))
-        rep.check(okk, R, '%s: %s -> %s' % (v.qname, label, exc), v.where(),
-                  'the cascade validation no longer rejects %s with %s '
-                  '(test `%s`)' % (label, exc, text))
-    # the hotfix-only line is the only one exempted from "needs a dev branch"
-    skip = [n for n in c.nodes.values() if n.kind == 'continue']
-    gate = {}
-    for text in ('dev_branch is None', 'stb_branch is None',
-                 'hf_branch is not None'):
-        gate[text] = an.branch_nodes(v, lambda e, t=text: src(e) == t, True)
-    for s_ in skip:
-        for text, g in gate.items():
-            ok, path = c.must_pass(g, s_.id)
-            rep.check(ok and bool(g), R, v.qname + ': only a hotfix-only '
-                      'line skips validation (%s)' % text, v.where(s_),
-                      'a version line is skipped without `%s`' % text,
-                      path=c.describe_path(path))
+        if not dev:
+            # only a hotfix-only line is exempt from "needs a development
+            # branch"
+            want = {('continue',)} if (not stb and hf) else \
+                {('raise', BR + '.errors.DevBranchDoesNotExist')}
+            ok = {(o[0],) + tuple(str(x).rpartition('.')[2] for x in o[1:])
+                  for o in got} == \
+                {(o[0],) + tuple(str(x).rpartition('.')[2] for x in o[1:])
+                 for o in want}
+            rep.check(ok, R, '%s: line with dev=%s stab=%s hotfix=%s' % (
+                v.qname, dev, stb, hf), v.where(), 'a version line without '
+                'development branch (stab=%s, hotfix=%s) leads to %s '
+                '(required %s)' % (stb, hf, sorted(map(str, got)),
+                                   sorted(map(str, want))))
+        else:
+            rep.check(('continue',) not in got, R, '%s: a line with a '
+                      'development branch is validated (stab=%s hotfix=%s)'
+                      % (v.qname, stb, hf), v.where(), 'a version line '
+                      'with a development branch is skipped')
+    # stabilization micro must be the next patch of its development branch
+    mm = '%s[DevelopmentBranch].micro + 1 == %s[StabilizationBranch].micro' \
+        % (holder, holder)
+    env = kind_env(holder, dict(zip(K, (True, True, False))))
+    env[mm] = False
+    got = iteration_outcomes(an, v, loop, env)
+    rep.evaluated()
+    rep.check({str(o[-1]).rpartition('.')[2] for o in got} ==
+              {'VersionMismatch'}, R, v.qname + ': a stabilization micro '
+              'that is not the next patch -> VersionMismatch', v.where(),
+              'with dev.micro + 1 != stab.micro the validation does %s' %
+              sorted(map(str, got)))
     u = need_func(an, BR + '.BranchCascade.update_versions')
     cu = an.cfg(u)
     dep = [n for n in cu.nodes.values() if n.kind == 'raise_stmt' and
            (raise_class(an, u, n.ast) or '').endswith(
                '.DeprecatedStabilizationBranch')]
     rep.floor('C09 DeprecatedStabilizationBranch raise sites', len(dep), 2)
-    t1 = an.branch_nodes(u, lambda e: src(e) == 'stb_branch.micro <= micro',
-                         True)
-    t2 = an.branch_nodes(u, lambda e: src(e) ==
-                         'stb_branch.micro == hf_branch.micro', True)
+    def is_le_tag_micro(e):
+        return isinstance(e, ast.Compare) and len(e.ops) == 1 and \
+            isinstance(e.ops[0], ast.LtE) and \
+            src(e.left).endswith('(StabilizationBranch).micro') and \
+            "['micro']" in src(e.comparators[0])
+
+    def is_hf_micro(e):
+        if not (isinstance(e, ast.Compare) and len(e.ops) == 1 and
+                isinstance(e.ops[0], ast.Eq)):
+            return False
+        sides = {src(e.left).rpartition('(')[2],
+                 src(e.comparators[0]).rpartition('(')[2]}
+        return sides == {'StabilizationBranch).micro',
+                         'HotfixBranch).micro'}
+    t1 = an.branch_nodes(u, is_le_tag_micro, True, expand='all')
+    t2 = an.branch_nodes(u, is_hf_micro, True, expand='all')
     covered = 0
     for n in dep:
         for g in (t1, t2):
@@ -351,8 +386,8 @@ def rejection_guards(prog, an, rep):
               'tag language differs on %r' % w)
     fz = need_func(an, BR + '.BranchCascade.finalize')
     cf = an.cfg(fz)
-    nod = an.branch_nodes(fz, lambda e: src(e) == 'dev_branch is None',
-                          True)
+    nod = an.branch_nodes(fz, lambda e: flow_canon(an, fz, e).endswith(
+        '[DevelopmentBranch] is None'), True, expand=None)
     okk = False
     for b in nod:
         reach = cf.reachable(start=b, use_exc=False)
@@ -381,51 +416,34 @@ def target_version_cases(prog, an, rep):
             src(n.ast).startswith('self.target_versions.append(')]
     rep.floor('C09 target version contributions', len(apps), 4)
 
+    loop, holder = _cascade_loop(f)
+
     def kind(n):
-        t = src(n.ast)
-        if 'hf_branch.hfrev' in t:
+        t = canon(f, n.ast.value) if isinstance(n.ast, ast.Expr) else \
+            src(n.ast)
+        if '[HotfixBranch].hfrev' in t:
             return 'hotfix'
-        if 'stb_branch.micro' in t:
+        if '[StabilizationBranch].micro' in t:
             return 'stabilization'
         if 'latest_minor' in t:
             return 'major-only development'
-        if 'dev_branch.micro' in t:
+        if '[DevelopmentBranch].micro' in t:
             return 'development'
         return '?'
     handlers = {n.id: kind(n) for n in apps}
     rows = 0
     bad = False
+    K = ('DevelopmentBranch', 'StabilizationBranch', 'HotfixBranch')
+    hm = '%s[DevelopmentBranch].has_minor' % holder
     for hf, dst_hf, stb, dev, has_minor in itertools.product(
             (True, False), repeat=5):
-        env = {'hf_branch': hf,
-               "dst_branch.name.startswith('hotfix/')": dst_hf,
-               'stb_branch': stb, 'dev_branch': dev,
-               'dev_branch.has_minor is True': has_minor,
-               'dev_branch.has_minor is False': not has_minor}
-        got = set()
-        seen = set()
-        # explore one loop iteration
-        loops = [n for n in walk_local(f.node, include_root=False)
-                 if isinstance(n, ast.For)]
-        head = c.stmt_node[id(loops[0])]
-        stack = [s for s in c.succ[head] if c.nodes[s].kind == 'true']
-        while stack:
-            i = stack.pop()
-            if i in seen or i == head:
-                continue
-            seen.add(i)
-            n = c.nodes[i]
-            if i in handlers:
-                got.add(handlers[i])
-            if n.kind == 'test':
-                v = eval_cond(f, n.ast, env)
-                if v is UNKNOWN:
-                    stack.extend(s for s in c.succ[i]
-                                 if (i, s) not in c.exc_edges)
-                else:
-                    stack.extend(c.branch(n, bool(v)))
-                continue
-            stack.extend(s for s in c.succ[i] if (i, s) not in c.exc_edges)
+        env = kind_env(holder, dict(zip(K, (dev, stb, hf))))
+        env.update({
+            "%s.name.startswith('hotfix/')" % f.params[1]: dst_hf,
+            hm: has_minor, hm + ' is True': has_minor,
+            hm + ' is False': not has_minor})
+        got = {o[1] for o in iteration_outcomes(an, f, loop, env, handlers)
+               if o[0] == 'mark'}
         want = set()
         if hf and dst_hf:
             want.add('hotfix')
@@ -449,13 +467,21 @@ def target_version_cases(prog, an, rep):
     if not bad:
         rep.ok(R, '%s: %d-row case table of which branch kind contributes '
                'the expected fix version' % (f.qname, rows), f.where())
-    it = src(loops[0].iter)
+    it = src(loop.iter)
     rep.check(it == 'self._cascade.items()', R, f.qname + ': one '
               'contribution per remaining release line', f.where(),
               'iterates %s' % it)
-    off = [v for _, v in stores_to(f, 'offset') if v is not None]
-    rep.check(len(off) == 1 and src(off[0]) ==
-              '2 if dev_branch.has_stabilization else 1',
+    # the development contribution skips the patch held by an untargeted
+    # stabilization branch: micro + (2 if has_stabilization else 1)
+    dev_apps = [n for n in apps if handlers[n.id] == 'development']
+    off = []
+    for n in dev_apps:
+        for x in ast.walk(substitute_locals(f, n.ast.value)):
+            if isinstance(x, ast.BinOp) and isinstance(x.op, ast.Add) and \
+                    src(x.left).endswith('[DevelopmentBranch].micro'):
+                off.append(x.right)
+    rep.check(len(off) == 1 and ' '.join(src(off[0]).split()) ==
+              '2 if %s[DevelopmentBranch].has_stabilization else 1' % holder,
               'C09.DEP.fix-version-cases', f.qname + ': the patch held by an '
               'untargeted stabilization branch is skipped', f.where(),
               'offset is %s' % [src(v) for v in off])
